@@ -40,7 +40,7 @@ Print Assumptions C12_division_by_zero_is_a_runtime_error.
 Theorem C12_every_index_is_checked :
   forall F (O : fops F) ev ex fns cls depth s a i v s',
     eval_step O fns cls depth ev ex s (EIndex a i) = Ok (v, s') ->
-    exists va s1 vi t l k, ev s a = Ok (va, s1) /\ ev s1 i = Ok (vi, s') /\ va = VArr t l /\ index_of vi = Some k /\
+    exists va s1 vi t l k, ev s a = Ok (va, s1) /\ ev s1 i = Ok (vi, s') /\ va = VArr t l /\ index_of O vi = Some k /\
                            0 <= k < Z.of_nat (List.length l) /\ nth_error l (Z.to_nat k) = Some v.
 Proof. exact @index_is_checked. Qed.
 Print Assumptions C12_every_index_is_checked.
